@@ -458,6 +458,31 @@ theorem call_mask_matching (fs : List (TField K R)) (αr αc : R) (W0 W1 : Int) 
   · unfold propagateDftCall; rw [(resolved_mask fs αr αc _ _ _ _ m).2.2 hg b hb]
     simp only [propagateDft, maskOutExtent, Gen.dftOutExtentArgsMask, outExtent, Gen.dftShapeOut, h0, h1]
 
+/-- **The call with a mask, on fields carrying their real shifts.** For a mask of the output shape with support (`boundary m = some b`):
+the call answers, and sample `[i][j]` of `Wavefront.field` of the answer is the sum over the fields whose window centred at `trunc(shift)`
+contains the sample — restricted to the bounding box of the mask's support — of the Fraunhofer sum at `g − shift`; exactly zero outside
+the box. Composition of `call_mask_matching`, `C20.boundary_is_bbox` (the box is never empty) and `propagateDft_sample_of_shifts`. -/
+theorem call_mask_sample_of_shifts {K R : Type} [CommRing R] [RealLike R] [TruncLike R] [Semiring K] [CxLike K R]
+    (hcast : ∀ n : Int, (RealLike.ofInt n : R) = (n : R))
+    (fs : List (Fld K × R × R)) (αr αc : R) (W0 W1 : Int) (shape propShape : Gen.ShapeArg) (os : Int) (m : Arr Bool) (b : Extent)
+    (S P : Int × Int) (hS : Gen.dftShapeDefault W0 W1 shape = S) (hPs : Gen.dftPropShapeDefault S.1 S.2 propShape = P)
+    (h0 : m.s0 = S.1 * os) (h1 : m.s1 = S.2 * os) (hb : boundary m = some b) (hP : 0 < P.1 * os ∧ 0 < P.2 * os) :
+    ∃ out, propagateDftCall (fs.map fun p => tfieldOfShift p.1 p.2.1 p.2.2) αr αc W0 W1 shape propShape os (some m) = .ok out (S.1 * os) (S.2 * os) ∧
+      ∀ i j : Int, 0 ≤ i ∧ i < S.1 * os → 0 ≤ j ∧ j < S.2 * os →
+        (wavefrontField 1 out (S.1 * os) (S.2 * os)).get i j =
+          (fs.map fun p =>
+            if (outExtent (S.1 * os) (S.2 * os) (some b)).inb (i - S.1 * os / 2) (j - S.2 * os / 2) &&
+               (propExtent (P.1 * os) (P.2 * os) (TruncLike.trunc p.2.1) (TruncLike.trunc p.2.2)).inb (i - S.1 * os / 2) (j - S.2 * os / 2)
+            then fraunhoferAt p.1 αr αc (RealLike.ofInt (i - S.1 * os / 2) - p.2.1) (RealLike.ofInt (j - S.2 * os / 2) - p.2.2)
+            else 0).sum := by
+  obtain ⟨⟨_, hr, _, _, hc, _⟩, _⟩ := C20.boundary_is_bbox m b hb
+  refine ⟨propagateDft (fs.map fun p => tfieldOfShift p.1 p.2.1 p.2.2) αr αc S.1 S.2 P.1 P.2 os (some b), ?_, fun i j hi hj => ?_⟩
+  · have := (call_mask_matching (fs.map fun p => tfieldOfShift p.1 p.2.1 p.2.2) αr αc W0 W1 shape propShape os m
+      (by rw [hS]; exact h0) (by rw [hS]; exact h1)).2 b hb
+    rw [this, hS, hPs]
+  · exact propagateDft_sample_of_shifts hcast fs αr αc S.1 S.2 P.1 P.2 os (some b)
+      (by rw [outExtent_mask]; simp only; omega) hP i j hi hj
+
 /-- **A mask of the wrong shape is refused**: the call ends in ValueError iff the mask differs from the output array
 `shape * oversample` in EITHER dimension (generated guard `np.any(mask.shape != shape_out)`); so every mask that is accepted has exactly
 the output shape and `call_mask_matching` applies to it. (Before fix c7b8eca the guard was `np.all`, which let a mask that was wrong in
@@ -529,6 +554,14 @@ example (i j : Int) (hi : 0 ≤ i ∧ i < 4 * 1) (hj : 0 ≤ j ∧ j < 4 * 1) :=
 example : ∃ oe, outExtentOfMask 3 4 (some ⟨3, 4, fun i j => (i == 0 && j == 1) || (i == 2 && j == 3)⟩) = some oe ∧ oe = ⟨-1, 1, -1, 1⟩ :=
   ⟨_, by decide, rfl⟩
 example : boundary ⟨3, 4, fun i j => (i == 0 && j == 1) || (i == 2 && j == 3)⟩ = some ⟨0, 2, 1, 3⟩ := by decide
+
+local instance : TruncLike Int := ⟨id⟩
+/-- `call_sample_of_shifts` / `call_mask_sample_of_shifts`: a 2x2 wavefront, `shape=None`, `prop_shape=3`, `oversample=2`, one field shifted
+by (1, -1); with the 4x4 mask whose support is the box rows 1..2, cols 0..3 -/
+example := call_sample_of_shifts (K := Int) (R := Int) (fun _ => rfl) [(⟨⟨2, 2, fun i j => i + 2 * j + 1⟩, 0, 0⟩, 1, -1)] 1 1 2 2
+  .none (.scalar 3) 2 (2, 2) (3, 3) rfl rfl (by decide) (by decide)
+example := call_mask_sample_of_shifts (K := Int) (R := Int) (fun _ => rfl) [(⟨⟨2, 2, fun i j => i + 2 * j + 1⟩, 0, 0⟩, 1, -1)] 1 1 2 2
+  .none (.scalar 3) 2 ⟨4, 4, fun i _ => i == 1 || i == 2⟩ ⟨1, 2, 0, 3⟩ (2, 2) (3, 3) rfl rfl rfl rfl (by decide) (by decide)
 end
 
 end Lentil.C02
